@@ -2,12 +2,12 @@
 from vlib.core import Query
 
 INFO = {
-    "claim": "On an arbitrary byte array of arbitrary length presented as an .ao file, the header/section reader of lib.c and the FOAM "
-             "decoder of foam.c perform no out-of-bounds access and reach no internal-error report, short files are refused, an accepted "
+    "claim": "On an arbitrary byte array of arbitrary length presented as an .ao file, the header/section reader of lib.c "
+             "performs no out-of-bounds access and reach no internal-error report, short files are refused, an accepted "
              "header only describes sections that lie inside the file, and decoders are only handed bytes that were read from the file. "
              "Where the unchanged code violates this the failing (function, check) pairs are listed in known_findings.txt.",
     "level": "model_checking",
-    "bounds": "file length 0..190 bytes (header is 174), all contents; FOAM buffers <= 12 bytes",
+    "bounds": "file length 0..190 bytes (header is 174), all contents",
     "outside": "'produces exactly the outputs of the intact file' (program level); symbol-meaning and type-form sections; archives (.al); .fm text",
     "assumptions": [
         "stdio modelled over a symbolic byte array with ISO C short-read semantics; fseek never fails",
@@ -23,10 +23,6 @@ def queries(ctx, extra):
         qs.append(Query(name=e[2:], harness="c17_lib.c", entry=e, srcs=["buffer.c"], defs=["-DFLEN=190", "-DV_NO_BUG_STUB"],
                         unwind=24, unwindset=["load.0:192", "fread.0:192", "strAlloc.0:192"], timeout=900, mem_gb=12, object_bits=12,
                         group=".ao header/sections", bound="file of 0..190 symbolic bytes"))
-    for nb, tiers in ((3, ("quick", "thorough")), (5, ("thorough",))):
-        qs.append(Query(name="foam_decode_%d" % nb, harness="c17_foam.c", entry="h_foam_decode",
-                        srcs=["foam.c", "buffer.c", "bigint.c", "xfloat.c", "util.c"], remove_bodies=["foamInit"],
-                        defs=["-DNB=%d" % nb, "-DV_NO_BUG_STUB"], unwind=nb + 3, unwindset=["foamFrBuffer:%d" % nb],
-                        timeout=1800, mem_gb=12, object_bits=12, tiers=tiers, unwind_fail_is_violation=False,
-                        group="FOAM decoder", bound="section of 1..%d symbolic bytes" % nb))
+    # foamFrBuffer on arbitrary bytes (harness/c17_foam.c): no verdict for 3 symbolic bytes in 1800 s (symbolic tag =>
+    # every decoder case x recursion); not registered, not claimed.
     return qs
